@@ -364,8 +364,68 @@ func c04StepKs(p c04Params, max int) []int {
 	return ks
 }
 
+// c04BatchUnits: the calls of a batch are requests too. Two calls, the first with a context
+// of its own that is cancelled at every scheduling step of SendBatch (interrupt units), the
+// regions answering "not serving" once or twice so that the calls are re-located and sent
+// again: the call whose context stays alive must succeed, whatever happens to the other.
+func c04BatchUnits(thorough bool) []*explore.Unit {
+	var units []*explore.Unit
+	for _, layout := range []string{"spread", "coloc"} {
+		for _, keys := range [][]string{{"a", "x"}, {"a", "b"}} {
+			for _, scripts := range [][]string{{"N", "N"}, {"N", ""}, {"", "N"}, {"NN", "N"}, {"D", "N"}} {
+				base := batchParams{layout: layout, keys: keys, kinds: []string{"get", "inc"}, scripts: scripts, event: "cancel-call", evStep: -1, ownCtx: 0}
+				probe := &batchObs{}
+				vrt.Tracing = true
+				res, _ := explore.RunOnce(&explore.Unit{Opt: vrt.Options{MaxSteps: 60000}, Body: batchBody(base, probe)}, nil)
+				vrt.Tracing = false
+				for i, line := range res.Trace {
+					k := res.TraceSteps[i]
+					if k <= probe.startStep || harnessThread(strings.SplitN(line, " ", 2)[0]) {
+						continue
+					}
+					if k > probe.endStep {
+						break
+					}
+					p := base
+					p.evStep = k
+					out := &batchObs{}
+					u := &explore.Unit{Name: "batch|" + p.String(), Bound: 0, Opt: vrt.Options{MaxSteps: 60000}, Body: batchBody(p, out), Sig: batchSig(out)}
+					u.Check = func(r *vrt.Result) *explore.Finding {
+						if f := baseFinding(r); f != nil {
+							if strings.HasPrefix(f.Class, "step-horizon") {
+								f.Class = "request-never-succeeds-after-faults (retries without end)"
+							}
+							f.Msg += "\n" + p.String()
+							return f
+						}
+						if r.Deadlock {
+							return &explore.Finding{Class: "request-blocked-forever-after-faults", Msg: fmt.Sprintf("blocked=%v\n%s", r.Blocked, p)}
+						}
+						if len(out.res) != 2 {
+							return &explore.Finding{Class: "wrong-number-of-results", Msg: p.String()}
+						}
+						// call 1 has a live context and only retryable outcomes in its script
+						if e := out.res[1].Error; e != nil {
+							return &explore.Finding{Class: "live-call-of-a-batch-fails-with-a-retryable-error", Msg: fmt.Sprintf("res[1] (%s %s, context alive) = %v (%T); res[0] = %v\n%s", p.kinds[1], p.keys[1], e, e, out.res[0].Error, p)}
+						}
+						if !payloadOK(p.kinds[1], p.keys[1], out.res[1].Msg) {
+							return &explore.Finding{Class: "wrong-value-after-faults", Msg: p.String()}
+						}
+						if e := out.res[0].Error; e != nil && !isCtxErr(e) {
+							return &explore.Finding{Class: "cancelled-call-returns-non-context-error", Msg: fmt.Sprintf("res[0] = %v (%T)\n%s", e, e, p)}
+						}
+						return nil
+					}
+					units = append(units, u)
+				}
+			}
+		}
+	}
+	return units
+}
+
 func c04Units(thorough bool) []*explore.Unit {
-	units := c04AdminUnits(thorough)
+	units := append(c04AdminUnits(thorough), c04BatchUnits(thorough)...)
 	evs := c04Events()
 	add := func(p c04Params, bound int) {
 		for _, e := range p.events {
@@ -523,7 +583,7 @@ func init() {
 	register(&Prop{
 		ID: "C04", Level: "model_checking",
 		Technique:   "stateless model checking of the real top-level client over a simulated cluster: every fault script of bounded length x cache warm/cold x event position (before / concurrent, schedules up to a deviation bound), with the cluster's executor as server-side observer",
-		Rule:        "fault scripts = every sequence of <=2 (thorough: sampled 3) events from a 19-event menu {move, split, merge, transient NSRE / RegionMoved / RegionOpening / TooBusy / CallQueueTooBig / Throttling / RetryImmediately / PleaseHold bursts, server crash with reassignment, server-stopped and server-aborted exceptions, connection reset, meta move, meta NSRE, ZooKeeper errors; on tier W also a server that hangs (accepts requests, never answers) with its regions reassigned} x {1,2} requests (get/put) x cache warm or cold x events applied before the requests (default schedule) or concurrently (all schedules with <=1 deviation, thorough <=2); plus application exception and dropped table. Oracle: every request succeeds with its own value and was executed by a server hosting the owning region at that time (the executor refuses stale region names); fatal errors are returned unchanged and not re-executed. Non-trivial = non-default schedule or non-empty script. Additionally every single event of the menu fires at EVERY scheduling step of a thread running client code while two requests are in progress, cache cold and warm, two servers and one shared connection, on tier L (<=1 further deviation, thorough 2 for connection reset / crash / move on a warm cache) and on tier W (vrt.GoInterrupt: the event's thread is created waiting for that step and is the default choice there, so its position is a parameter of the unit and costs no deviation).",
+		Rule:        "fault scripts = every sequence of <=2 (thorough: sampled 3) events from a 19-event menu {move, split, merge, transient NSRE / RegionMoved / RegionOpening / TooBusy / CallQueueTooBig / Throttling / RetryImmediately / PleaseHold bursts, server crash with reassignment, server-stopped and server-aborted exceptions, connection reset, meta move, meta NSRE, ZooKeeper errors; on tier W also a server that hangs (accepts requests, never answers) with its regions reassigned} x {1,2} requests (get/put) x cache warm or cold x events applied before the requests (default schedule) or concurrently (all schedules with <=1 deviation, thorough <=2); plus application exception and dropped table. Oracle: every request succeeds with its own value and was executed by a server hosting the owning region at that time (the executor refuses stale region names); fatal errors are returned unchanged and not re-executed. Non-trivial = non-default schedule or non-empty script. Additionally every single event of the menu fires at EVERY scheduling step of a thread running client code while two requests are in progress, cache cold and warm, two servers and one shared connection, on tier L (<=1 further deviation, thorough 2 for connection reset / crash / move on a warm cache) and on tier W (vrt.GoInterrupt: the event's thread is created waiting for that step and is the default choice there, so its position is a parameter of the unit and costs no deviation). Batches: two calls, the first with its own context cancelled at EVERY scheduling step of SendBatch, regions answering not-serving once or twice or a dropped connection: the call whose context stays alive must succeed.",
 		Assumptions: []string{"tier L: region clients are simulated (their internals are C02/C03/C18's subject); the simulated cluster only shows behaviour a real HBase cluster can show", "after the script the cluster is stable"},
 		Quick:       150 * time.Second, Thorough: 25 * time.Minute,
 		Units: c04Units,
